@@ -28,8 +28,12 @@ type replayCase struct {
 
 // Witnesses of the recorded findings (kept visible on every run).
 func witnessBytes(id int) *absprog.Prog {
+	u8 := absprog.Basic("uint8")
 	return &absprog.Prog{ID: id, Decls: []absprog.Decl{
+		{K: "named", Name: "Tiny", Under: &u8, Iota: true, Consts: []absprog.Const{{Name: "T0"}, {Name: "T1"}}},
 		{K: "struct", Name: "Blob", Fields: []absprog.Field{{Name: "Raw", Type: absprog.Slice(absprog.Basic("byte"))}, {Name: "N", Type: absprog.Basic("int")}}},
+		// a slice of a named uint8 (enum) is a byte slice for encoding/json as well
+		{K: "struct", Name: "Tinies", Fields: []absprog.Field{{Name: "Ks", Type: absprog.Slice(absprog.Ref("", "Tiny"))}, {Name: "N", Type: absprog.Basic("int")}}},
 	}}
 }
 
